@@ -127,10 +127,13 @@ theorem assignTargets_sim (W : World U V) {n : Nsp} (hn : n.kind = .module) (tmp
 
 /-! ### statements -/
 
-theorem lowerStmt_sim (W : World U V) (cx : Ctx) (hn : cx.nsp.kind = .module) {s : Stmt} (hs : SimpleS s)
+theorem lowerSimple_sim (W : World U V) (cx : Ctx) (hn : cx.nsp.kind = .module) {s : Stmt} (hs : SimpleS s)
+    (hnif : ∀ c b e, s ≠ .if_ c b e)
     {u u' : U} (hx : ExecS W s u u') (t : T V) (st : St) (es : List Expr) (st' : St)
     (h : lowerStmt cx s st = .ok (es, st')) : (∃ t', Seq W es u t u' t') ∧ sameFlags st' st := by
   cases hx with
+  | ifTrue c b e => exact absurd rfl (hnif c b e)
+  | ifFalse c b e => exact absurd rfl (hnif c b e)
   | expr e he =>
       cases hs with
       | expr _ hc =>
@@ -254,21 +257,7 @@ theorem lowerStmt_sim (W : World U V) (cx : Ctx) (hn : cx.nsp.kind = .module) {s
           exact sameFlags_trans (sameFlags_fresh _ _) (sameFlags_trans (sameFlags_fresh _ _) (sameFlags_fresh _ _))
 
 
-/-! ### blocks, wrappers, the module -/
-
-theorem goModule_sim (W : World U V) (cx : Ctx) (hn : cx.nsp.kind = .module) :
-    ∀ (ss : List Stmt), (∀ s ∈ ss, SimpleS s) → ∀ {u u' : U}, ExecB W ss u u' → ∀ (t : T V) (st : St) (es : List Expr) (st' : St),
-      lowerFull.goModule cx ss st = .ok (es, st') → (∃ t', Seq W es u t u' t') ∧ sameFlags st' st
-  | [], _, _, _, .nil _, t, st, es, st', h => by
-      simp only [lowerFull.goModule] at h; cases h; exact ⟨⟨t, Seq.nil W _ _⟩, sameFlags_refl _⟩
-  | s :: ss, hs, _, _, .cons h1 h2, t, st, es, st', h => by
-      simp only [lowerFull.goModule] at h
-      obtain ⟨⟨a, st1⟩, ha, h⟩ := bind_ok h
-      obtain ⟨⟨b, st2⟩, hb, h⟩ := bind_ok h
-      cases pure_ok h
-      obtain ⟨⟨t1, r1⟩, f1⟩ := lowerStmt_sim W cx hn (hs s (by simp)) h1 t st a st1 ha
-      obtain ⟨⟨t2, r2⟩, f2⟩ := goModule_sim W cx hn ss (fun x hx => hs x (by simp [hx])) h2 t1 st1 b st2 hb
-      exact ⟨⟨t2, Seq.append r1 r2⟩, sameFlags_trans f2 f1⟩
+/-! ### wrappers -/
 
 theorem isChain_call {f a : Expr} (h : isChain f = true) : isChain (.call f [a] []) = true := by
   unfold isChain
@@ -301,11 +290,255 @@ theorem wrap_sim (W : World U V) (cfg : Cfg) {es : List Expr} {u u' : U} {t t' :
         simp only [chainCallWrapper]
         exact ⟨_, chain_fold W _ _ (isChain_base e1) (.chain _ e1 (isChain_base e1) (.runner _ _) h1) hs⟩
 
-/-- **Straight-line module code means the same after conversion - for every world.**  Whenever the
-    source statements run from user state `u` to `u'`, the one expression the conversion returns
+theorem seq_nil_inv {W : World U V} {u u' : U} {t t' : T V} (h : Seq W [] u t u' t') : u' = u ∧ t' = t := by
+  obtain ⟨vs, h⟩ := h
+  cases h
+  exact ⟨rfl, rfl⟩
+
+theorem flowKind_module {cx : Ctx} (hn : cx.nsp.kind = .module) (hl : cx.loops = []) : cx.flowKind = .none := by
+  simp [Ctx.flowKind, hn, hl]
+
+theorem simple_not_direct {s : Stmt} (hs : SimpleS s) : s.isDirect = false := by
+  cases hs <;> rfl
+
+/-! ### the fragment never requests helper imports (static) -/
+
+theorem assignAuto_st {n : Nsp} (hn : n.kind = .module) {tg : Expr} (hs : SimpleT tg) (v : Expr) (st : St) (es : List Expr) (st' : St)
+    (h : assignAuto n false tg v st = .ok (es, st')) : st' = st := by
+  cases hs with
+  | name x =>
+      simp only [assignAuto] at h
+      obtain ⟨r, _, h⟩ := bind_ok h
+      cases pure_ok h; rfl
+  | attr o a _ =>
+      simp only [assignAuto] at h
+      obtain ⟨o', _, h⟩ := bind_ok h
+      cases pure_ok h; rfl
+  | sub o i _ _ _ =>
+      simp only [assignAuto] at h
+      obtain ⟨i', _, h⟩ := bind_ok h
+      obtain ⟨o', _, h⟩ := bind_ok h
+      cases pure_ok h; rfl
+
+theorem assignTargets_st {n : Nsp} (hn : n.kind = .module) (v : Expr) : ∀ (ts : List Expr), (∀ tg ∈ ts, SimpleT tg) →
+    ∀ (st : St) (es : List Expr) (st' : St), assignTargets n v ts st = .ok (es, st') → st' = st
+  | [], _, st, es, st', h => by simp only [assignTargets] at h; cases h; rfl
+  | tg :: ts, hs, st, es, st', h => by
+      simp only [assignTargets] at h
+      obtain ⟨⟨a, st1⟩, ha, h⟩ := bind_ok h
+      obtain ⟨⟨b, st2⟩, hb, h⟩ := bind_ok h
+      cases pure_ok h
+      have e1 := assignAuto_st hn (hs tg (by simp)) v st a st1 ha
+      have e2 := assignTargets_st hn v ts (fun x hx => hs x (by simp [hx])) st1 b st2 hb
+      exact e2.trans e1
+
+mutual
+  theorem lowerStmt_flags : ∀ (s : Stmt) (cx : Ctx), cx.nsp.kind = .module → cx.loops = [] →
+      SimpleS s → ∀ (st : St) (es : List Expr) (st' : St), lowerStmt cx s st = .ok (es, st') → sameFlags st' st
+    | .if_ test body orelse, cx, hn, hl, hs, st, es, st', h => by
+        cases hs with
+        | if_ _ _ _ hct hsb hso =>
+          simp only [lowerStmt] at h
+          obtain ⟨⟨b, st1⟩, hb, h⟩ := bind_ok h
+          obtain ⟨⟨o, st2⟩, ho, h⟩ := bind_ok h
+          obtain ⟨t', ht', h⟩ := bind_ok h
+          have hfl : sameFlags st2 st :=
+            sameFlags_trans (lowerBlock_flags orelse cx hn hl hso st1 o st2 ho) (lowerBlock_flags body cx hn hl hsb st b st1 hb)
+          cases hst : cx.cfg.ifStyle with
+          | ifExpr => simp only [hst] at h; cases pure_ok h; exact hfl
+          | shortCircuit =>
+            simp only [hst] at h
+            rcases ite_cases h with ⟨_, h⟩ | ⟨_, h⟩ <;> (cases pure_ok h; exact hfl)
+    | .expr e, cx, hn, _, hs, st, es, st', h => by
+        simp only [lowerStmt] at h
+        obtain ⟨e', _, h⟩ := bind_ok h
+        cases pure_ok h; exact sameFlags_refl _
+    | .pass_, cx, hn, _, hs, st, es, st', h => by simp only [lowerStmt] at h; cases ok_ok h; exact sameFlags_refl _
+    | .global_ _, cx, hn, _, hs, st, es, st', h => by simp only [lowerStmt] at h; cases ok_ok h; exact sameFlags_refl _
+    | .assign ts value, cx, hn, _, hs, st, es, st', h => by
+        cases hs with
+        | assign _ _ hne hts hcv =>
+          simp only [lowerStmt] at h
+          obtain ⟨v', _, h⟩ := bind_ok h
+          rcases ite_cases h with ⟨_, h⟩ | ⟨_, h⟩
+          · obtain ⟨⟨r, st2⟩, hr, h⟩ := bind_ok h
+            cases pure_ok h
+            have e := assignTargets_st hn _ ts hts _ r st2 hr
+            subst e
+            exact sameFlags_fresh st "assign"
+          · have e := assignTargets_st hn _ ts hts _ _ _ h
+            subst e
+            exact sameFlags_refl _
+    | .augAssign tg op value, cx, hn, _, hs, st, es, st', h => by
+        cases hs with
+        | aug _ _ _ hst hcv =>
+          simp only [lowerStmt, lowerAugAssign] at h
+          obtain ⟨v', _, h⟩ := bind_ok h
+          cases hst with
+          | name x =>
+            obtain ⟨l, _, h⟩ := bind_ok h
+            obtain ⟨r, _, h⟩ := bind_ok h
+            cases pure_ok h
+            exact sameFlags_fresh _ _
+          | attr o a _ =>
+            obtain ⟨o', _, h⟩ := bind_ok h
+            cases pure_ok h
+            exact sameFlags_trans (sameFlags_fresh _ _) (sameFlags_fresh _ _)
+          | sub o i _ _ _ =>
+            obtain ⟨o', _, h⟩ := bind_ok h
+            obtain ⟨i', _, h⟩ := bind_ok h
+            cases pure_ok h
+            exact sameFlags_trans (sameFlags_fresh _ _) (sameFlags_trans (sameFlags_fresh _ _) (sameFlags_fresh _ _))
+    | .while_ .., _, _, _, hs, _, _, _, _ => by cases hs
+    | .for_ .., _, _, _, hs, _, _, _, _ => by cases hs
+    | .break_, _, _, _, hs, _, _, _, _ => by cases hs
+    | .continue_, _, _, _, hs, _, _, _, _ => by cases hs
+    | .annAssign .., _, _, _, hs, _, _, _, _ => by cases hs
+    | .functionDef .., _, _, _, hs, _, _, _, _ => by cases hs
+    | .return_ _, _, _, _, hs, _, _, _, _ => by cases hs
+    | .nonlocal_ _, _, _, _, hs, _, _, _, _ => by cases hs
+    | .classDef .., _, _, _, hs, _, _, _, _ => by cases hs
+    | .import_ _, _, _, _, hs, _, _, _, _ => by cases hs
+    | .importFrom .., _, _, _, hs, _, _, _, _ => by cases hs
+    | .other .., _, _, _, hs, _, _, _, _ => by cases hs
+
+  theorem lowerBlock_flags : ∀ (ss : List Stmt) (cx : Ctx), cx.nsp.kind = .module → cx.loops = [] →
+      (∀ s ∈ ss, SimpleS s) → ∀ (st : St) (es : List Expr) (st' : St), lowerBlock cx ss st = .ok (es, st') → sameFlags st' st
+    | [], cx, _, _, _, st, es, st', h => by simp only [lowerBlock] at h; cases h; exact sameFlags_refl _
+    | s :: ss, cx, hn, hl, hs, st, es, st', h => by
+        simp only [lowerBlock] at h
+        obtain ⟨⟨a, st1⟩, ha, h⟩ := bind_ok h
+        have f1 := lowerStmt_flags s cx hn hl (hs s (by simp)) st a st1 ha
+        simp only [simple_not_direct (hs s (by simp)), Bool.false_or, flowKind_module hn hl, mayInt] at h
+        rcases ite_cases h with ⟨_, h⟩ | ⟨_, h⟩
+        · cases pure_ok h; exact f1
+        · simp only [Bool.false_eq_true, if_false] at h
+          obtain ⟨⟨rest, st2⟩, hr, h⟩ := bind_ok h
+          cases pure_ok h
+          exact sameFlags_trans (lowerBlock_flags ss cx hn hl (fun x hx => hs x (by simp [hx])) st1 rest st2 hr) f1
+end
+
+/-! ### statements and blocks, with `if` at any nesting -/
+
+mutual
+  theorem lowerStmt_sim (W : World U V) (hW : Lawful W) : ∀ (s : Stmt) (cx : Ctx), cx.nsp.kind = .module → cx.loops = [] →
+      SimpleS s → ∀ {u u' : U}, ExecS W s u u' → ∀ (t : T V) (st : St) (es : List Expr) (st' : St),
+      lowerStmt cx s st = .ok (es, st') → (∃ t', Seq W es u t u' t') ∧ sameFlags st' st
+    | .if_ test body orelse, cx, hn, hl, hs, u, u', hx, t, st, es, st', h => by
+        cases hs with
+        | if_ _ _ _ hct hsb hso =>
+          simp only [lowerStmt] at h
+          obtain ⟨⟨b, st1⟩, hb, h⟩ := bind_ok h
+          obtain ⟨⟨o, st2⟩, ho, h⟩ := bind_ok h
+          obtain ⟨t', ht', h⟩ := bind_ok h
+          rw [transf_module_id _ hn [] test t' ht'] at h
+          have hfl : sameFlags st2 st := by
+            cases hx with
+            | ifTrue _ _ _ _ _ hxb => exact sameFlags_trans (lowerBlock_flags orelse cx hn hl hso st1 o st2 ho) (lowerBlock_flags body cx hn hl hsb st b st1 hb)
+            | ifFalse _ _ _ _ _ hxb => exact sameFlags_trans (lowerBlock_flags orelse cx hn hl hso st1 o st2 ho) (lowerBlock_flags body cx hn hl hsb st b st1 hb)
+          cases hx with
+          | ifTrue _ _ _ htest htr hxb =>
+            have ft := (frame W htest hct).2 t
+            obtain ⟨⟨tb, rb⟩, _⟩ := lowerBlock_sim W hW body cx hn hl hsb hxb t st b st1 hb
+            obtain ⟨v, hv⟩ := wrap_sim W cx.cfg rb
+            cases hst : cx.cfg.ifStyle with
+            | ifExpr =>
+              simp only [hst] at h
+              cases pure_ok h
+              exact ⟨⟨tb, Seq.cons (.ifT _ _ _ ft htr hv) (Seq.nil W _ _)⟩, hfl⟩
+            | shortCircuit =>
+              simp only [hst] at h
+              rcases ite_cases h with ⟨_, h⟩ | ⟨_, h⟩
+              · cases pure_ok h
+                exact ⟨⟨tb, Seq.cons (.andT _ _ ft htr hv) (Seq.nil W _ _)⟩, hfl⟩
+              · cases pure_ok h
+                -- `test and [body] or else`: the one-element list is true, whatever the body's value is
+                have hlist : Ev W (.list [wrapExprs cx.cfg b]) _ t (W.listOf [v]) _ tb := .list _ (.cons hv (.nil _ _))
+                have hand := Ev.andT (W := W) test (.list [wrapExprs cx.cfg b]) ft htr hlist
+                exact ⟨⟨tb, Seq.cons (.orT _ _ hand (hW.list _ _ _)) (Seq.nil W _ _)⟩, hfl⟩
+          | ifFalse _ _ _ htest htr hxb =>
+            have ft := (frame W htest hct).2 t
+            obtain ⟨⟨to, ro⟩, _⟩ := lowerBlock_sim W hW orelse cx hn hl hso hxb t st1 o st2 ho
+            obtain ⟨v, hv⟩ := wrap_sim W cx.cfg ro
+            cases hst : cx.cfg.ifStyle with
+            | ifExpr =>
+              simp only [hst] at h
+              cases pure_ok h
+              exact ⟨⟨to, Seq.cons (.ifF _ _ _ ft htr hv) (Seq.nil W _ _)⟩, hfl⟩
+            | shortCircuit =>
+              simp only [hst] at h
+              rcases ite_cases h with ⟨hoe, h⟩ | ⟨_, h⟩
+              · cases pure_ok h
+                have : o = [] := by simpa using hoe
+                subst this
+                obtain ⟨rfl, rfl⟩ := seq_nil_inv ro
+                exact ⟨⟨_, Seq.cons (.andF _ _ ft htr) (Seq.nil W _ _)⟩, hfl⟩
+              · cases pure_ok h
+                -- the test is false: `and` yields its value, `or` takes its truth value again (the same, by `retest`)
+                have hand := Ev.andF (W := W) test (.list [wrapExprs cx.cfg b]) ft htr
+                exact ⟨⟨to, Seq.cons (.orF _ _ hand (hW.retest _ _ _ _ htr) hv) (Seq.nil W _ _)⟩, hfl⟩
+    | .expr e, cx, hn, _, hs, _, _, hx, t, st, es, st', h => lowerSimple_sim W cx hn hs (by intro c b e h; cases h) hx t st es st' h
+    | .pass_, cx, hn, _, hs, _, _, hx, t, st, es, st', h => lowerSimple_sim W cx hn hs (by intro c b e h; cases h) hx t st es st' h
+    | .global_ _, cx, hn, _, hs, _, _, hx, t, st, es, st', h => lowerSimple_sim W cx hn hs (by intro c b e h; cases h) hx t st es st' h
+    | .assign _ _, cx, hn, _, hs, _, _, hx, t, st, es, st', h => lowerSimple_sim W cx hn hs (by intro c b e h; cases h) hx t st es st' h
+    | .augAssign _ _ _, cx, hn, _, hs, _, _, hx, t, st, es, st', h => lowerSimple_sim W cx hn hs (by intro c b e h; cases h) hx t st es st' h
+    | .while_ .., _, _, _, hs, _, _, _, _, _, _, _, _ => by cases hs
+    | .for_ .., _, _, _, hs, _, _, _, _, _, _, _, _ => by cases hs
+    | .break_, _, _, _, hs, _, _, _, _, _, _, _, _ => by cases hs
+    | .continue_, _, _, _, hs, _, _, _, _, _, _, _, _ => by cases hs
+    | .annAssign .., _, _, _, hs, _, _, _, _, _, _, _, _ => by cases hs
+    | .functionDef .., _, _, _, hs, _, _, _, _, _, _, _, _ => by cases hs
+    | .return_ _, _, _, _, hs, _, _, _, _, _, _, _, _ => by cases hs
+    | .nonlocal_ _, _, _, _, hs, _, _, _, _, _, _, _, _ => by cases hs
+    | .classDef .., _, _, _, hs, _, _, _, _, _, _, _, _ => by cases hs
+    | .import_ _, _, _, _, hs, _, _, _, _, _, _, _, _ => by cases hs
+    | .importFrom .., _, _, _, hs, _, _, _, _, _, _, _, _ => by cases hs
+    | .other .., _, _, _, hs, _, _, _, _, _, _, _, _ => by cases hs
+
+  theorem lowerBlock_sim (W : World U V) (hW : Lawful W) : ∀ (ss : List Stmt) (cx : Ctx), cx.nsp.kind = .module → cx.loops = [] →
+      (∀ s ∈ ss, SimpleS s) → ∀ {u u' : U}, ExecB W ss u u' → ∀ (t : T V) (st : St) (es : List Expr) (st' : St),
+      lowerBlock cx ss st = .ok (es, st') → (∃ t', Seq W es u t u' t') ∧ sameFlags st' st
+    | [], cx, _, _, _, _, _, .nil _, t, st, es, st', h => by
+        simp only [lowerBlock] at h; cases h; exact ⟨⟨t, Seq.nil W _ _⟩, sameFlags_refl _⟩
+    | s :: ss, cx, hn, hl, hs, _, _, .cons h1 h2, t, st, es, st', h => by
+        simp only [lowerBlock] at h
+        obtain ⟨⟨a, st1⟩, ha, h⟩ := bind_ok h
+        obtain ⟨⟨t1, r1⟩, f1⟩ := lowerStmt_sim W hW s cx hn hl (hs s (by simp)) h1 t st a st1 ha
+        simp only [simple_not_direct (hs s (by simp)), Bool.false_or, flowKind_module hn hl, mayInt] at h
+        rcases ite_cases h with ⟨hemp, h⟩ | ⟨_, h⟩
+        · cases pure_ok h
+          have : ss = [] := by simpa using hemp
+          subst this
+          cases h2
+          exact ⟨⟨t1, r1⟩, f1⟩
+        · simp only [Bool.false_eq_true, if_false] at h
+          obtain ⟨⟨rest, st2⟩, hr, h⟩ := bind_ok h
+          cases pure_ok h
+          obtain ⟨⟨t2, r2⟩, f2⟩ := lowerBlock_sim W hW ss cx hn hl (fun x hx => hs x (by simp [hx])) h2 t1 st1 rest st2 hr
+          exact ⟨⟨t2, Seq.append r1 r2⟩, sameFlags_trans f2 f1⟩
+end
+
+/-! ### the module -/
+
+theorem goModule_sim (W : World U V) (hW : Lawful W) (cx : Ctx) (hn : cx.nsp.kind = .module) (hl : cx.loops = []) :
+    ∀ (ss : List Stmt), (∀ s ∈ ss, SimpleS s) → ∀ {u u' : U}, ExecB W ss u u' → ∀ (t : T V) (st : St) (es : List Expr) (st' : St),
+      lowerFull.goModule cx ss st = .ok (es, st') → (∃ t', Seq W es u t u' t') ∧ sameFlags st' st
+  | [], _, _, _, .nil _, t, st, es, st', h => by
+      simp only [lowerFull.goModule] at h; cases h; exact ⟨⟨t, Seq.nil W _ _⟩, sameFlags_refl _⟩
+  | s :: ss, hs, _, _, .cons h1 h2, t, st, es, st', h => by
+      simp only [lowerFull.goModule] at h
+      obtain ⟨⟨a, st1⟩, ha, h⟩ := bind_ok h
+      obtain ⟨⟨b, st2⟩, hb, h⟩ := bind_ok h
+      cases pure_ok h
+      obtain ⟨⟨t1, r1⟩, f1⟩ := lowerStmt_sim W hW s cx hn hl (hs s (by simp)) h1 t st a st1 ha
+      obtain ⟨⟨t2, r2⟩, f2⟩ := goModule_sim W hW cx hn hl ss (fun x hx => hs x (by simp [hx])) h2 t1 st1 b st2 hb
+      exact ⟨⟨t2, Seq.append r1 r2⟩, sameFlags_trans f2 f1⟩
+
+/-- **Module code of the fragment means the same after conversion - for every lawful world.**  Whenever
+    the source statements run from user state `u` to `u'`, the one expression the conversion returns
     evaluates from `u` to `u'` (the helper variables it creates are in `t'`, apart from the user
-    state), under either wrapper. -/
-theorem module_sim (W : World U V) (cfg : Cfg) (root : SymScope) (body : List Stmt) (hs : ∀ s ∈ body, SimpleS s)
+    state), under either wrapper and either if-style. -/
+theorem module_sim (W : World U V) (hW : Lawful W) (cfg : Cfg) (root : SymScope) (body : List Stmt) (hs : ∀ s ∈ body, SimpleS s)
     (e : Expr) (h : lowerFull cfg root body = .ok e) {u u' : U} (hx : ExecB W body u u') :
     ∃ v t', Ev W e u [] v u' t' := by
   unfold lowerFull at h
@@ -314,7 +547,7 @@ theorem module_sim (W : World U V) (cfg : Cfg) (root : SymScope) (body : List St
   obtain ⟨⟨b, st⟩, hb, h⟩ := bind_ok h
   cases pure_ok h
   have hk : g.kind = .module := generateNsp_kind hg
-  obtain ⟨⟨t', r⟩, fl⟩ := goModule_sim W { cfg := cfg, nsp := g, loops := [], fnUsed := false } hk body hs hx [] _ b st hb
+  obtain ⟨⟨t', r⟩, fl⟩ := goModule_sim W hW { cfg := cfg, nsp := g, loops := [], fnUsed := false } hk rfl body hs hx [] _ b st hb
   obtain ⟨f1, f2, f3⟩ := fl
   simp only [] at f1 f2 f3
   simp only [f1, f2, f3, Bool.false_eq_true, if_false]
